@@ -4,7 +4,7 @@
     [Extract Constant], no [Extract Inductive] of our own. *)
 From Coq Require Import Extraction ExtrOcamlBasic.
 From Muxide Require Import Model.Base Model.Annexb Model.Adts Model.Codec Model.Boxes Model.F64
-  Model.Writer Model.Api Model.Frag Model.Cli Spec.Bmff Spec.Reader Spec.NalSplit Spec.Checks Spec.Contract Spec.FragSpec Spec.Layout Spec.Headers Spec.HeaderChecks Spec.Av1Syntax.
+  Model.Writer Model.Api Model.Frag Model.Cli Spec.Bmff Spec.Reader Spec.NalSplit Spec.Checks Spec.Contract Spec.FragSpec Spec.Layout Spec.Headers Spec.HeaderChecks Spec.Av1Syntax Spec.Paths.
 Extraction Language OCaml.
 Extraction "../build/ocaml/model.ml"
   Base.len Base.be32 N.add N.mul N.div N.modulo N.eqb N.ltb N.leb N.of_nat N.to_nat N.shiftl N.lor
@@ -26,4 +26,5 @@ Extraction "../build/ocaml/model.ml"
   HeaderChecks.check_C07 HeaderChecks.check_C18 HeaderChecks.failed_C19_mux HeaderChecks.failed_C19_init HeaderChecks.failed_C16_mux Headers.iso8601
   Av1Syntax.seq_obu Av1Syntax.valid_seq Av1Syntax.seq_level0 Av1Syntax.seq_tier0
   Cli.mux_command Cli.validate_verdict Cli.info_walk Cli.read_hex_bytes
+  Paths.explicit_of
   Contract.check_C04 Contract.err_names Contract.violated FragSpec.segment_read FragSpec.accepted_writes FragSpec.spec_seg_samples.
